@@ -437,7 +437,7 @@ PROPS["C10"] = {
 PROPS["C08"] = {
     "kani_units": [],
     "verus_units": ["overlay_publish"],
-    "syntactic": ["commit_raw_checks_before_publish", "claim_tree_values_checks_before_claim"],
+    "syntactic": ["commit_raw_checks_before_publish", "claim_tree_values_checks_before_claim", "commit_changes_claims_nothing_before_validation"],
     "level": "other",
     "technique": "Verus contracts on the real validation (check) and publication (copy_to_overlay) functions of both change-set kinds, extracted from /repo on every run",
     "claim": "For hash and btree change sets: check() accepts exactly the transactions all of whose operations are valid for the column (Set/Dereference; Reference only with reference counting; no tree operation); copy_to_overlay never fails on a transaction that passed check() (publication cannot stop half way), publishes exactly the in-order fold of the operations tagged with the commit id (last operation on a key wins) and leaves the other overlays untouched. That commit_raw runs every check() before taking a commit id and publishing is checked syntactically on the function text (reported as an assumption, not a proof). The defect this exposed was fixed (4d64658).",
